@@ -228,7 +228,7 @@ def quantities(optic, wl):
 
 
 # ------------------------------------------------------------- recorders ----
-def record_psf(optic, field, wl, N, Gs, rnd, npix=2, full=True, pupil=True, judge_all=False):
+def record_psf(optic, field, wl, N, Gs, rnd, npix=2, full=True, judge_all=False):
     """FFTPSF(...) -> event (or None with a reason when the result is not finite)."""
     from optiland.psf import FFTPSF
     p = G.quiet(FFTPSF, optic, field, wl, N, Gs)
@@ -253,7 +253,7 @@ def record_psf(optic, field, wl, N, Gs, rnd, npix=2, full=True, pupil=True, judg
     centre = psf[c, c] if (c < rows and c < cols) else float("nan")
     inten = np.asarray(p.data[0][0][1], float)
     ev = {"kind": "psf", "N": int(N), "G": int(Gs), "w": root_cert(Gs),
-          "P": cplx(P) if pupil else [], "M": reals(np.abs(P)) if pupil else [],
+          "P": cplx(P), "M": reals(np.abs(P)),
           "rows": int(rows), "cols": int(cols),
           "img": reals(psf) if full else [], "all": bool(judge_all and full),
           "sum": dy(float(psf.sum())), "min": dy(float(psf.min())), "max": dy(float(psf.max())),
